@@ -464,16 +464,15 @@ _extend("C05",
     scope="js_parser_lower.go lowerObjectSpread, lowerObjectRestInDecls, lowerAssign (objRestReturnValueIsUnused and objRestMustReturnInitExpr), lowerObjectRestToDecls, lowerObjectRestHelper (visit, lowerObjectRestPattern, splitObjectPattern, captureIntoRef), captureKeyForObjectRest; runtime.go __spreadValues, __spreadProps, __defNormalProp, __objRest, __restKey as JavaScript — modelled (Impl/Lower3.lean) over an object semantics with ordered string/symbol keys, accessors, prototypes and world events (Spec/ObjectOps.lean), validated against Node 20 by the objrestsem kernel",
     assumptions=["objrest: objects the program makes are referenced by nobody else while they are built; world objects are ordinary objects (no Proxy), every property read is an event; keys defined by literals are neither array indices nor names of Object.prototype properties; identifiers are declared variables and temporaries are fresh; the helpers see the built-ins captured when the file started; __defNormalProp's `key in obj` test collapsed into define"])
 
-# isohash (C18): the isolated hash of one chunk and the hashed name (held back until the model follows the mode-hash fix)
-_HELD("C18",
+# isohash (C18): the isolated hash of one chunk and the hashed name
+_extend("C18",
     lean_modules=["EsbuildModel.Props.C18IsoHash"],
     theorems=_thms("C18IsoHash", "isolated_hash_function_of_preimage preimage_is_tuple_encoding isolated_preimage_injective_partial isolated_covers_output "
-                   "output_change_changes_tuple name_is_function_of_hash name_shape name_determines_first_five_bytes name_panics_iff_empty"),
-    kernels=[("isohash", 15000, 400000)],
-    open=["C18IsoHash.isolated_preimage_injective (full, no shape hypotheses): FALSE of the code — the number of part ranges, of template parts and of pieces, and the presence of the public path and of the legal comments, are not written to the hash; four counterexample tuples are proved in Props/C18IsoHash.lean and replayed on the real routine by the kernel (stat collision-pair-*); no way to obtain equal NAMES with different contents through them was found; proved instead: isolated_preimage_injective_partial",
-          "C18IsoHash: what generateChunksInParallel appends AFTER hashing (sourceMappingURL comment, legal-comment link) depends on the --sourcemap / --legal-comments MODE, which is not hashed: known finding c18-sourcemap-mode-not-hashed"],
-    scope="internal/linker/linker.go generateIsolatedHash + generateIsolatedHashInParallel (every hash.Write in order: per part range namespace / pretty-or-key path / partIndexBegin / partIndexEnd for JS chunks only, finalTemplate Data, public path if non-empty, piece data or joiner bytes, source-map Prefix/Mappings/Suffix, external legal comments if non-empty; panic on a sourceIndex out of range), hashWriteUint32/hashWriteLengthPrefixed; internal/xxhash New/Reset, Digest.Write, writeBlocks, Sum64, Sum (the streaming XXH64 digest is part of the model: the kernel compares digests); internal/bundler/bundler.go HashForFileName (base32, [:8])",
-    assumptions=["isohash: SMShape (a source map is absent or its Prefix starts with '{' and its Mappings do not — true of generateSourceMapForChunk, which is not modelled); written lengths and part indices < 2^32; xxhash collision freedom (unchanged)"])
+                   "output_change_changes_tuple unwritten_modes_do_not_matter name_is_function_of_hash name_shape name_determines_first_five_bytes name_panics_iff_empty"),
+    kernels=[("isohash", 12000, 300000)],
+    open=["C18IsoHash.isolated_preimage_injective (full, no shape hypotheses): FALSE of the code — the number of part ranges, of template parts and of pieces, and the presence of the public path, of the map and of the legal comments, are not written to the hash; six counterexample tuple families are proved in Props/C18IsoHash.lean and replayed on the real routine by the kernel (stat collision-pair-*); no way to obtain equal NAMES with different contents through them was found; proved instead: isolated_preimage_injective_partial"],
+    scope="internal/linker/linker.go generateIsolatedHash + generateIsolatedHashInParallel (every hash.Write in order: per part range namespace / pretty-or-key path / partIndexBegin / partIndexEnd for JS chunks only, finalTemplate Data, public path if non-empty, piece data or joiner bytes, source-map Prefix/Mappings/Suffix, external legal comments if non-empty; panic on a sourceIndex out of range), hashWriteUint32/hashWriteLengthPrefixed; internal/xxhash New/Reset, Digest.Write, writeBlocks, Sum64, Sum (the streaming XXH64 digest is part of the model: the kernel compares digests); internal/bundler/bundler.go HashForFileName (base32, [:8]); the two mode writes (source map / legal comments) and the trailer part of generateChunksInParallel (legal link, sourceMappingURL comment / inline data URL / nothing per mode, EnsureNewlineAtEnd, JS vs CSS comment style), tied end to end through pkg/api builds",
+    assumptions=["isohash: a written source-map mode is 1-4; external legal comments have >= 4 bytes, the first four non-NUL, < 16 MiB - 8; own-path strings (pathBetweenChunks, URL escaping, Finalize + base64) are inputs of the trailer model; SMShape (a source map is absent or its Prefix starts with '{' and its Mappings do not — true of generateSourceMapForChunk, which is not modelled); written lengths and part indices < 2^32; xxhash collision freedom (unchanged)"])
 
 # lineoffset (C07): byte offset -> (line, UTF-16 column), original and generated side
 _extend("C07",
@@ -507,3 +506,28 @@ _extend("C15",
           "MangleProps: which names the parser makes candidates (isMangledProp / --mangle-props / --reserve-props / --mangle-quoted / @__KEY__) is a hypothesis (WF, Spec/MangleProps.lean), not modelled; separate links without a cache (known finding c15-mangle-props-differ-between-entry-points) are a remark: the theorems are about ONE mangleProps call"],
     scope="internal/linker/linker.go mangleProps in full (reserved set from js_lexer.Keywords / cache targets / `false` keys / ReservedProps of reachable non-runtime JS files, merging of MangledProps by name, sort, name generation with the skip loop, cache read and write-back, nil cache), internal/ast/ast.go MergeSymbols, MergeContentsWith, FollowSymbols, CharFreq.Include, NameMinifier.ShuffleByCharFreq on DefaultNameMinifierJS, internal/renamer StableSymbolCountArray.Less, js_printer mangledPropName; NumberToMinifiedName reused from Impl/Rename.lean; tied through the verif export linker.VerifMangleProps on hand-built links",
     assumptions=["mangleprops: Go maps are association lists traversed in list order (the Go side iterates in Go's random order, so every agreement also tests order independence); sort.Sort modelled by a stable insertion sort with the same comparator (equal when StableSourceIndices is injective); CharFreq is a fixed [64]int32; cyclic Symbol.Link chains are not generated; WF = what parser/bundler/api establish (one unlinked flag-free symbol of its own file per (file, candidate), each file reachable once, cache values string or false with unique keys)"])
+
+# jsxtext (C01): JSX text children, entities, attribute strings
+_extend("C01",
+    lean_modules=["EsbuildModel.Props.C01JsxText"],
+    theorems=_thms("C01JsxText", "jsx_text_structure jsx_text_is_ecma_spec jsx_text_is_spec_partial exotic_whitespace_trimmed no_newline_only_entities no_newline_is_decode "
+                   "normalised_text_fixed_point normalised_twice whitespace_with_newline_is_empty whitespace_without_newline_is_kept entity_decode_spec entity_value_is_spec "
+                   "decimal_entity_is_code_point hex_entity_is_code_point utf16_surrogate_pair surrogate_reference_is_one_unit attr_value attr_value_verbatim attr_unterminated "
+                   "child_token_never_panics child_token_spec child_dropped_iff indentation_child_dropped spec_trimEnd_is_reverse_dropWhile"),
+    kernels=[("jsxtext", 30000, 1500000)],
+    open=["C01JsxText.jsx_text_is_spec (Babel's class: only space/tab trimmed): FALSE by design — esbuild trims every ECMA-262 WhiteSpace next to a line break (TypeScript's reading without U+0085/U+200B); observation, witness exotic_whitespace_trimmed; proved under the hypothesis in jsx_text_is_spec_partial",
+          "JSX: --jsx=preserve (EJSXText raw), TS-mode errors for } and >, the printer's re-escaping of the decoded strings, tag/attribute-name parsing and {...} children are not modelled"],
+    scope="internal/js_lexer/js_lexer.go: decodeJSXEntities (numeric branch strconv.ParseUint(...,32) && value <= utf8.MaxRune; surrogate code points accepted and emitted as one unit) and fixWhitespaceAndDecodeJSXEntities in full (index machine, slice-bounds panics explicit), the text token of NextJSXElementChild, the string-literal case of NextInsideJSXElement, tables.go jsxEntity (253 entries, transcribed by tools_gen_jsx_entity_table.py), js_ast.IsWhitespace; js_parser.go parseJSXElement: the len(str) > 0 test that drops empty text children — against Spec/JsxText.lean (split at LF/CR/LS/PS, trim, drop empty, join with one space, decode references afterwards)",
+    assumptions=["jsxtext: a Go string is modelled as the rune list utf8.DecodeRuneInString yields (ill-formed bytes are in the generator); hypothesis Runes (elements <= U+10FFFF) is true of every decoded Go string; strconv.ParseUint modelled from its documentation, checked by correspondence; Spec/JsxText.lean is the package author's reading of Babel's cleanJSXElementLiteralChild / TypeScript's fixupWhitespaceAndDecodeEntities (neither installed; hand-written node reference)"])
+
+# cjswrap (C02): wrapping decisions / ExportsKind (steps 1-2 of scanImportsAndExports)
+_extend("C02",
+    lean_modules=["EsbuildModel.Props.C02Wrap"],
+    theorems=_thms("C02Wrap", "recursivelyWrapDependencies_terminates hasDynamicExports_terminates scan_terminates wrap_iff wrap_closed wrap_least wrap_kind "
+                   "unwrapped_commonjs_is_unimported_entry dynamic_exports_iff_reachable_commonjs_star hasDynamicExports_fresh_visited_exact "
+                   "exports_kind_monotone scan_order_independent wrapped_contains_intended wrapped_eq_intended_of_no_splitting"),
+    kernels=[("cjswrap", 600, 20000)],
+    open=["CjsWrap: the wrapped set is least for the closure relation the code uses (every import record with a valid SourceIndex); against the intended relation it is a superset and equal without code splitting: under --splitting an import() inside a wrapped file also wraps the separately loaded chunk (Props example exS, reproduced on the real binary; sound, costs scope hoisting)",
+          "CjsWrap: IsAsyncOrHasAsyncDependency (set in bundler.go), createWrapperForFile, UsesExportsRef, CSS/copy-loader record rewriting and log messages of step 1 are not modelled"],
+    scope="internal/linker/linker.go: the entry-point loop of Link (lazy-export entry -> CommonJS, ForceIncludeExportsForEntryPoint), scanImportsAndExports step 1 (ImportStmt/ImportRequire/ImportDynamic effects on Wrap and ExportsKind, the no-implicit-CommonJS-wrapper rule), step 2 (recursivelyWrapDependencies with DidWrapDependencies, hasDynamicExportsDueToExportStar with its visited map, the imported-CommonJS rule) and the NeedsExportsVariable assignment of step 4 — modelled (Impl/CjsWrap.lean) against Spec/Wrap.lean, tied through the exports observation hook (WrapFiles/WrapOpts) on real api.Build runs",
+    assumptions=["cjswrap: the pre-link ExportsKind is read from the metafile ('format' of each input; builds with link errors have no metafile and are skipped, ~7%); the runtime's pre-link kind is taken to be ESM; hypotheses WF / Fresh / Covers / RuntimeESM / no-initial-dynamic-fallback are evaluated by the driver (op hyp) on a quarter of the real tables, never violated; Spec/Wrap.lean is the package author's reading of the linker comments and of what lazy evaluation needs"])
